@@ -62,7 +62,7 @@ HANG_SECONDS = 20.0
 SMALL = 2048            # shipped files up to this size: every byte prefix in the quick tier
 
 
-def info(prop):
+def _info_bounded(prop):
     return {
         "level": "other",
         "functions": ["gaddlemaps/parsers/__init__.py::GroFile.__init__", "gaddlemaps/parsers/__init__.py::GroFile._load_and_verify",
@@ -896,7 +896,7 @@ def _writer_must_fail(fam):
 # ---------------------------------------------------------------------------
 
 
-def tasks(prop, tier, seed):
+def _tasks_bounded(prop, tier, seed):
     nmax = 4 if tier == "quick" else 8
     t = []
     for n in range(1, nmax + 1):
@@ -920,7 +920,7 @@ def tasks(prop, tier, seed):
     return t
 
 
-def replay(prop, cex):
+def _replay_bounded(prop, cex):
     """Re-run the failing input on the real code (no open() wrapper for the reader)."""
     warnings.simplefilter("ignore")
     P = _parsers()
@@ -966,3 +966,42 @@ def replay(prop, cex):
         return {"reproduced": False, "note": "unknown counterexample kind", "inputs": cex}
     finally:
         shutil.rmtree(wd, ignore_errors=True)
+
+
+# ---------------------------------------------------------------------------
+# deductive part (contracts/d14_reader_vc.py) wired in
+
+
+def info(prop):
+    from . import d14_reader_vc as D
+    d = _info_bounded(prop)
+    h = D.deductive_info()
+    d["functions"] = h["functions"] + [f for f in d.get("functions", []) if not f.endswith(("_load_and_verify", "_load_box_matrix"))]
+    d["stubs"] = h["stubs"] + d.get("stubs", [])
+    d["assumptions"] = h["assumptions"] + d.get("assumptions", [])
+    d["explanation"] = h["explanation"] + d.get("explanation", "").replace("Bounded run-time contract checking, nothing deductive. ", "Bounded part (run-time contract checking): ")
+    d["trusted_base"] = ["z3 5.1", "vf/pyvc.py"] + d.get("trusted_base", [])
+    return d
+
+
+def tasks(prop, tier, seed):
+    from . import d14_reader_vc as D
+    return list(D.deductive_tasks(prop, tier, seed)) + list(_tasks_bounded(prop, tier, seed))
+
+
+def replay(prop, cex):
+    if cex.get("kind") == "vc":
+        # a failed proof obligation of the reader's acceptance logic: look for a truncated file the real reader accepts
+        for name, fn, args, _lim in [t for t in _tasks_bounded(prop, "quick", 0) if t[0].startswith("reader/generated")][:4]:
+            try:
+                obs = fn(*args)
+            except Exception:
+                continue
+            for o in obs:
+                if o.get("status") == "refuted" and o.get("kind") != "guard" and o.get("cex"):
+                    r = _replay_bounded(prop, o["cex"])
+                    if r and r.get("reproduced"):
+                        r["note"] = f"failed obligation {cex.get('obligation') or cex.get('clause') or cex.get('signature')} manifests on the real GroFile"
+                        return r
+        return {"reproduced": False, "inputs": cex, "note": "no failing truncation found in the bounded scope"}
+    return _replay_bounded(prop, cex)
